@@ -19,6 +19,7 @@ ITEMS = [
     Item('DumperBase.attr-helpers', DM.sym_attr_helpers, [('differential', DM.nat_attr_helpers)], DM.D + 'dumper_base.py::DumperBase.set_attr'),
     Item('DumperBase.row_counter', DM.sym_row_counter, [], DM.D + 'dumper_base.py::DumperBase.row_counter'),
     Item('FileDumper.rows_processor', DM.sym_rows_processor, [], DM.D + 'file_dumper.py::FileDumper.rows_processor'),
+    Item('FileDumper.dispatch', DM.sym_file_dumper_dispatch, [], DM.D + 'file_dumper.py::FileDumper.process_datapackage'),
     Item('DumperBase.insert_hash_in_path', DM.sym_insert_hash_in_path, [], DM.D + 'dumper_base.py::DumperBase.insert_hash_in_path'),
     Item('FileDumper.hash_handler', DM.sym_hash_handler, [], DM.D + 'file_dumper.py::FileDumper.hash_handler'),
     Item('FileDumper.handle_datapackage', DM.sym_handle_datapackage, [], DM.D + 'file_dumper.py::FileDumper.handle_datapackage'),
